@@ -70,6 +70,12 @@ def scenario(rng):
     if libmacro:
         files[0] = files[0][:-1] + " (export area0) (begin (define-syntax sq (syntax-rules () ((sq a) (* a a)))) (define (area0 r) (sq r))))"
         files.append("Fld.sld=(define-library (ld) (import (scheme base)) (export bump-sq) (begin (define (sq a) (+ a 1)) (define (bump-sq a) (sq a))))")
+    # a library (mx) that EXPORTS a macro, imported by library (bx) only: the program imports (bx) alone - the keyword is nothing to
+    # the program, which uses that identifier as a procedure of its own (or not at all: unbound)
+    expmacro = rng.random() < 0.4
+    if expmacro:
+        files.append("Fmx.sld=(define-library (mx) (import (scheme base)) (export scale) (begin (define-syntax scale (syntax-rules () ((scale e) (* 10 e))))))")
+        files.append("Fbx.sld=(define-library (bx) (import (scheme base) (mx)) (export tenfold) (begin (define (tenfold q) (scale q))))")
     # wrapper libraries wJ importing some state libs (and earlier wrappers), exporting bumpers
     nwrap = rng.randrange(0, 3)
     wrappers = []
@@ -87,7 +93,7 @@ def scenario(rng):
     imported_direct = [k for k in range(nstate) if rng.random() < 0.8]
     if patched or libmacro:
         imported_direct = list(range(nstate))
-    imp = ["(scheme base)"] + ["(s%d)" % k for k in imported_direct] + ["(w%d)" % j for j, _ in wrappers] + (["(pl)"] if patched else []) + (["(ld)"] if libmacro else [])
+    imp = ["(scheme base)"] + ["(s%d)" % k for k in imported_direct] + ["(w%d)" % j for j, _ in wrappers] + (["(pl)"] if patched else []) + (["(ld)"] if libmacro else []) + (["(bx)"] if expmacro else [])
     rng.shuffle(imp)
     imp = ["(scheme base)"] + [x for x in imp if x != "(scheme base)"]
     if libmacro and "(ld)" in imp and "(s0)" in imp and imp.index("(ld)") < imp.index("(s0)"):
@@ -96,9 +102,24 @@ def scenario(rng):
     forms.append("(import %s)" % " ".join(imp)); expect.append("N")
     redefined = set()
     sq_defined = [False]
+    scale_defined = [False]
     helper_defined = False
     for _ in range(rng.randrange(6, 20)):
         op = rng.random()
+        if expmacro and rng.random() < 0.25:
+            a = rng.randrange(2, 30)
+            which = rng.choice(["tenfold", "own-define", "own-call"])
+            if which == "tenfold":
+                # this implementation does not import KEYWORDS: inside (bx) `scale` is the transformer as a value, and calling it fails -
+                # what matters here is that the keyword never reaches the PROGRAM
+                forms.append("(tenfold %d)" % a); expect.append("E nonProcedure")
+            elif which == "own-define" or not scale_defined[0]:
+                if not scale_defined[0] and rng.random() < 0.3:
+                    forms.append("(scale %d)" % a); expect.append("E unbound")
+                forms.append("(define (scale q) (+ q 1))"); expect.append("N"); scale_defined[0] = True
+            else:
+                forms.append("(scale %d)" % a); expect.append("V i:%d" % (a + 1))
+            continue
         if libmacro and rng.random() < 0.25:
             a = rng.randrange(2, 30)
             which = rng.choice(["area0", "bump-sq", "own-define", "own-call"])
